@@ -27,7 +27,7 @@ import gen_c02 as G
 PROP = "C02"
 RULE = ("function level: every array over {0,1,2,3} of length <= 7 x block size 1..8 and None (rlencode) and x n in {4, 2} (index_pixels, index_bins); "
         "random arrays of length 30..400 with run lengths placed around multiples of the block size x 6 block sizes in 1..50; malformed id "
-        "streams (unsorted, negative, >= n). End to end: seeded recipes of 1..4 producing operations (create ordered/unordered/frame/dict, load "
+        "streams (unsorted, negative, >= n). End to end: seeded recipes of 1..5 producing steps (chain depth <= 4) (create ordered/unordered/frame/dict, load "
         "coo/bg2, cload pairs, merge, coarsen, zoomify, scool; several collections per file) over 1..3 chromosomes, fixed and variable bins, "
         "matrix shapes empty/diagonal/single row/last row/gapped rows/dense/sparse, symmetric-upper and square; every collection of every output "
         "file is one evaluation. non-trivial = array with >= 2 runs (function level) / collection with >= 2 pixels in >= 2 bins (end to end); "
@@ -481,18 +481,19 @@ def model_sees(errs):
 
 
 def create_model_expr(step):
-    """create_model on the stream a single create step hands to create(): frame/dict inputs are
-    sorted by create_cooler, an ordered chunk list is concatenated"""
+    """create_chunked (prepare_pixels + the resize/write loop of write_pixels + indexes + nnz/sum) on the
+    chunk list a single create step hands to create(): frame/dict inputs are one chunk sorted by
+    create_cooler, an ordered chunk list is passed as it is (empty chunks and no chunk included)"""
     if step["op"] != "create" or step["input"] not in ("frame", "dict", "ordered"):
         return None
-    recs = [r for ch in step["chunks"] for r in ch]
+    chunks = step["chunks"]
     if step["input"] in ("frame", "dict"):
-        recs = sorted(recs, key=lambda r: (r[0], r[1]))
-    if len(recs) > 400:
+        chunks = [sorted(chunks[0], key=lambda r: (r[0], r[1]))]
+    if sum(len(ch) for ch in chunks) > 400:
         return None
     chroms = [ci for ci, ws in enumerate(step["widths"]) for _ in ws]
-    px = C.lst([C.tup(C.tup(C.z(a), C.z(b_)), C.z(v)) for a, b_, v in recs])
-    return f"create_model {C.z(len(step['widths']))} {C.zl(chroms)} {px} {C.b(step['symm'])}"
+    lit = C.lst([C.lst([C.tup(C.tup(C.z(a), C.z(b_)), C.z(v)) for a, b_, v in ch]) for ch in chunks])
+    return f"create_chunked {C.z(len(step['widths']))} {C.zl(chroms)} {lit} {C.b(step['symm'])}"
 
 
 def raw_record(raw):
@@ -581,7 +582,7 @@ def e2e(ctx):
             break
     cmodel = C.coq_eval(IMPORTS, [ex for _, ex, _ in created], tmpdir=ctx.tmp / "e2e_create", shard=100, jobs=4)
     for (ccase, _, rec), mo in zip(created, cmodel):
-        ctx.compare("stored collection vs create_model(input stream)", ccase, rec, None if mo is None else mo[1])
+        ctx.compare("stored collection vs create_chunked(input chunks)", ccase, rec, None if mo is None else mo[1])
     ctx.extra["create_model_comparisons"] = len(created)
     ctx.extra["recipes"] = len(recipes)
     ctx.extra["collections_fed_to_model"] = len(pending)
@@ -606,10 +607,10 @@ def big_file(ctx):
     """one end-to-end file whose pixel table crosses the encoder's real 1e6-row block boundary"""
     import pandas as pd
     from cooler.create import create_cooler
-    n = 1500
+    n = 1700
     d = ctx.tmp / "big"
     d.mkdir(exist_ok=True)
-    widths = [[1000] * 700, [1000] * 799 + [437]]
+    widths = [[1000] * 800, [1000] * 899 + [437]]
     bins = G._bins(widths)
     iu = np.triu_indices(n)
     b1, b2 = iu[0].astype(np.int64), iu[1].astype(np.int64)
@@ -617,6 +618,8 @@ def big_file(ctx):
     keep = ~np.isin(b1, [5, 6, 700, 1499]) & ((b2 - b1) % 7 != 3)
     # make sure the 1e6-th row lies strictly inside a run
     b1, b2 = b1[keep], b2[keep]
+    while b1[999_999] != b1[1_000_000]:      # row 1e6 must lie strictly inside a run: drop leading pixels until it does
+        b1, b2 = b1[1:], b2[1:]
     assert len(b1) > 1_000_000 and b1[999_999] == b1[1_000_000]
     cnt = ((b1 * 31 + b2) % 5 + 1).astype(np.int64)
     edges = [0, 300_000, 300_000, 999_999, len(b1)]
